@@ -451,3 +451,7 @@ def run(ctx):
     ctx.guarded(r, r4_framing)
     r = ctx.rule("R5", "visit_regs/visit_regs_mut cover exactly the register fields (repacking)", 109)
     ctx.guarded(r, r5_visit_regs)
+    from .. import wgslrules as WR
+
+    r = ctx.rule("R6", "the shader that consumes the bytecode decodes it the way it is encoded (bytes, immediate flag, dispatch, framing)", 37)
+    ctx.guarded(r, WR.r_decoder)
